@@ -10,3 +10,7 @@ import Ypv.Props.C16
 #print axioms Ypv.Cli.diff_args_decision
 #print axioms Ypv.Cli.validate_exit_zero_iff_all_load
 #print axioms Ypv.Cli.validate_args_decision
+#print axioms Ypv.Cli.set_file_is_model_result
+#print axioms Ypv.Cli.set_args_decision
+#print axioms Ypv.Cli.paths_lines_are_found
+#print axioms Ypv.Cli.paths_file_lines
